@@ -541,8 +541,18 @@ def stepPipeOp (d : DState) (op : String) (toks impl : List String) : Option (DS
     let m := renderFin (← pipeFinalize p.leaves k p.shape p.log)
     -- specification: finalising that sink after it received the samples filtered by the stages in order
     let e := renderFin (k.feed (seqSpec p.leaves p.log)).finalize
+    let d := d.putPipe id { p with finalised := true }
     some (report d op { model := m, impl := implS, kind := "pipe",
                         clauses := [{ name := "C01.sink-pipe", ok := e == implS, expected := e }] })
+  | ["palive", id] => do
+    -- "finalising the pipe yields exactly what finalising that sink after the same filtered samples yields": whoever
+    -- finalises the sink by hand still holds the stages, so a sink that reaches into a stage through a handle, or a
+    -- stage whose end of life has an effect, tells the two apart unless every stage still exists at that moment
+    let p ← d.getPipe (← id.toNat?)
+    if !p.finalised then some (report d op { model := implS, impl := implS, kind := "pipe" }) else
+    let e := toString p.leaves.length
+    some (report d op { model := e, impl := implS, kind := "pipe",
+                        clauses := [{ name := "C01.sink-finalised-among-its-stages", ok := e == implS, expected := e }] })
   | ["plog", id] => do
     -- the per-stage invocation record of the probe stages: inputs each stage received, in order
     let id ← id.toNat?
